@@ -1,4 +1,6 @@
 """C08 - Blocks are the hop-spaced windows of the input, padded only at the end."""
+import math
+
 from hypothesis import strategies as st
 from vlib.core import Clause, Enumerated, Violation
 
@@ -16,7 +18,13 @@ RULE = ("cases = (items, size, hop, pad value, entry point) drawn by Hypothesis 
         "block and after each complete block, against a step-by-step model; clause late_bound "
         "gives the function blocks() an object whose iter() would fix its state (deque, dict / "
         "OrderedDict and views, set, a Stream object) and changes it after the call and before "
-        "the first pull; non-trivial = "
+        "the first pull; clause typed gives blocks() / Stream.blocks() / zero_pad() a str, bytes, "
+        "bytearray, memoryview, range or array.array as it is, with pad values of the same family "
+        "(text pads that are empty, one character or several characters long, bytes pads, numbers), "
+        "a bytearray / array.array also changed in its unread part while read; clause big draws sizes "
+        "up to 1024 (4096), hops from size/4 to size+300 and inputs of thousands of items; pad values "
+        "include -0.0, nan, lists, dicts and tuples (0.0 and -0.0 are different values); "
+        "non-trivial = "
         "at least 2 blocks or a padded tail (mutated: at least 2 blocks and an effective "
         "change); distinct = distinct case hash")
 ASSUMPTIONS = [
@@ -32,7 +40,10 @@ ASSUMPTIONS = [
 _items = st.one_of(
   st.integers(-5, 5), st.none(), st.text(max_size=2), st.booleans(),
   st.tuples(st.integers(0, 3), st.integers(0, 3)), st.integers(-64, 64).map(lambda v: v / 8.))
-_pad = st.one_of(st.none(), st.integers(-3, 3), st.just("PAD"), st.just(0.), st.tuples())
+_pad = st.one_of(st.none(), st.integers(-3, 3), st.sampled_from(["PAD", "", "-", "--"]), st.just(0.), st.tuples(),
+                 st.sampled_from([-0.0, -0.0, float("nan")]),                      # the sign of a zero is part of the value
+                 st.one_of(st.lists(st.integers(0, 1), max_size=1), st.builds(dict),   # unhashable / mutable pad objects
+                           st.tuples(st.sampled_from([0, 0., False]))))
 
 
 class _Tagged(Stream):
@@ -199,10 +210,21 @@ def _calls(case):
 _SUBCLASS_ROUTES = ("sub_tagged_method", "sub_tagged_positional", "sub_replay_reused", "thub_method")
 
 
+def _same_item(x, y):
+  if x is y:
+    return True
+  if type(x) is not type(y) or not x == y:
+    return False
+  if isinstance(x, float):               # 0.0 == -0.0, but they are not the same value
+    return math.copysign(1., x) == math.copysign(1., y)
+  if isinstance(x, tuple):
+    return same(x, y)
+  return True
+
+
 def same(a, b):
-  """Item-wise identity-or-equality with equal types (True != 1 here)."""
-  return len(a) == len(b) and all(
-    (x is y) or (type(x) is type(y) and x == y) for x, y in zip(a, b))
+  """Item-wise identity-or-equality with equal types (True != 1 and 0.0 != -0.0 here, also inside tuples)."""
+  return len(a) == len(b) and all(_same_item(x, y) for x, y in zip(a, b))
 
 
 def run_blocks(case):
@@ -718,6 +740,258 @@ def run_late(case):
   return {"nontrivial": changed and (len(exp) >= 2 or padded), "labels": labels}
 
 
+# ---- the input is a built-in sequence type given as it is ---------------------------------------
+# "Any iterable": a str is the sequence of its characters, bytes / bytearray / memoryview of their
+# integers, a range or an array.array of its numbers.  These are the types a fast path would single
+# out (slicing, len, string arithmetic), and the pad value is "any pad value": for a text input a
+# text pad that is empty, one character or several characters long is one pad ITEM per missing
+# place, never characters spliced into the block.
+
+_TYPED_KINDS = ("str", "str", "str", "str", "str_wide", "str_wide", "bytes", "bytearray", "memoryview", "range",
+                "array_i", "array_d")
+_TEXT_KINDS = ("str", "str_wide")
+_TYPED_MUTABLE = ("bytearray", "array_i", "array_d")     # buffers that can grow / shrink while their blocks are read
+_BYTES_KINDS = ("bytes", "bytearray", "memoryview")
+_TYPED_ENTRIES = ("fn_kw", "fn_kw", "fn_positional", "fn_seq_kw", "stream_method", "stream_fn", "iter",
+                  "zero_pad_noop")
+
+_text_pad = st.one_of(st.sampled_from(["", "", "-", " ", "--", "<pad>", "\n\n", "ab"]), st.text(max_size=3))
+_bytes_pad = st.sampled_from([b"", b"\x00", b"ab", 0, 255, "", "--"])
+
+
+def strat_typed(tier):
+  maxlen = 30 if tier == "quick" else 120
+  def sizehop(regime):
+    if regime == "none":
+      return st.tuples(st.integers(1, 7), st.none())
+    if regime == "eq":
+      return st.integers(1, 7).map(lambda s: (s, s))
+    if regime == "lt":
+      return st.integers(2, 7).flatmap(lambda s: st.tuples(st.just(s), st.integers(1, s - 1)))
+    return st.integers(1, 7).flatmap(lambda s: st.tuples(st.just(s), st.integers(s + 1, s + 5)))
+  def data_for(kind):
+    if kind == "str":
+      return st.one_of(st.text(alphabet="abcxyz -\n", max_size=maxlen),
+                       st.integers(0, maxlen).map(lambda n: ("wordwrapping text\n" * 8)[:n]))
+    if kind == "str_wide":
+      return st.one_of(st.text(alphabet=u"a\xe9\xdf中\U0001F600 -", max_size=maxlen),
+                       st.integers(0, maxlen).map(lambda n: (u"\xe9t\xe9 中\U0001F600-" * 20)[:n]))
+    if kind in _BYTES_KINDS:
+      return st.binary(max_size=maxlen)
+    if kind == "range":
+      return st.tuples(st.integers(-5, 5), st.integers(0, maxlen), st.sampled_from([1, 1, 2, 3, -1, -2]))
+    if kind == "array_i":
+      return st.lists(st.integers(-100, 100), max_size=maxlen)
+    return st.lists(st.integers(-64, 64).map(lambda v: v / 8.), max_size=maxlen)
+  def typed_op(kind):        # in-place changes a bytearray / array.array takes (values of its item type)
+    value = {"bytearray": st.integers(0, 255), "array_i": st.integers(-100, 100),
+             "array_d": st.integers(-64, 64).map(lambda v: v / 8.)}[kind]
+    return st.sampled_from(["extend", "extend", "truncate", "set", "insert", "none"]).flatmap(lambda name: {
+      "extend": st.tuples(st.just("extend"), st.lists(value, min_size=1, max_size=12)),
+      "truncate": st.tuples(st.just("truncate"), st.integers(0, 5)),
+      "set": st.tuples(st.just("set"), st.integers(0, 8), value),
+      "insert": st.tuples(st.just("insert"), st.integers(0, 5), value),
+      "none": st.just(("none",)),
+    }[name])
+  def pad_for(kind):
+    family = _text_pad if kind in _TEXT_KINDS else _bytes_pad if kind in _BYTES_KINDS else _pad
+    return st.sampled_from([0, 0, 0, 1]).flatmap(lambda other: _pad if other else family)
+  return st.sampled_from(_TYPED_KINDS).flatmap(lambda kind: st.fixed_dictionaries(dict(
+    kind=st.just(kind),
+    data=data_for(kind),
+    sh=st.sampled_from(["lt", "lt", "gt", "gt", "eq", "none"]).flatmap(sizehop),
+    pad=pad_for(kind),
+    op=st.sampled_from(["blocks", "blocks", "blocks", "zero_pad"]),
+    entry=st.sampled_from(_TYPED_ENTRIES),
+    left=st.integers(0, 4),
+    right=st.integers(0, 4),
+    pre=(st.sampled_from(["none", "none", "op"]).flatmap(
+      lambda w: st.just(("none",)) if w == "none" else typed_op(kind))
+         if kind in _TYPED_MUTABLE else st.just(("none",))),
+    muts=st.lists(typed_op(kind), max_size=5) if kind in _TYPED_MUTABLE else st.just([]),
+  )))
+
+
+def _typed_obj(kind, data):
+  from array import array
+  if kind in _TEXT_KINDS:
+    return data
+  if kind == "bytes":
+    return bytes(data)
+  if kind == "bytearray":
+    return bytearray(data)
+  if kind == "memoryview":
+    return memoryview(bytes(data))
+  if kind == "range":
+    start, n, step = data
+    return range(start, start + n * step, step)
+  if kind == "array_i":
+    return array("i", data)
+  if kind == "array_d":
+    return array("d", data)
+  raise AssertionError(kind)
+
+
+def run_typed(case):
+  kind, (size, hop), pad, entry = case["kind"], case["sh"], case["pad"], case["entry"]
+  kw = {} if hop is None else {"hop": hop}
+  hop = size if hop is None else hop
+  obj = _typed_obj(kind, case["data"])
+  items = list(_typed_obj(kind, case["data"]))    # what iterating such an object yields
+  labels = ["kind:" + kind, "op:" + case["op"]]
+  if kind in _TEXT_KINDS and isinstance(pad, str):
+    labels.append("text input, text pad")
+    if len(pad) != 1:
+      labels.append("text input, text pad not one character long")
+  if isinstance(pad, (str, bytes, tuple, list)):
+    labels.append("the pad value is a sequence itself")
+  if case["op"] == "zero_pad":
+    left, right = case["left"], case["right"]
+    if entry == "fn_positional":
+      got = list(zero_pad(obj, left, right, pad))
+    elif entry == "fn_seq_kw":
+      got = list(zero_pad(seq=obj, left=left, right=right, zero=pad))
+    elif entry in ("stream_method", "stream_fn"):
+      got = list(zero_pad(Stream(obj), left=left, right=right, zero=pad))
+    elif entry == "iter":
+      got = list(zero_pad(iter(obj), left=left, right=right, zero=pad))
+    else:
+      got = list(zero_pad(obj, left=left, right=right, zero=pad))
+    exp = [pad] * left + items + [pad] * right
+    if not same(got, exp):
+      raise Violation("zero_pad(<%s %r>, left=%d, right=%d, zero=%r) [%s] -> %r, expected %r"
+                      % (kind, obj, left, right, pad, entry, got, exp))
+    if left or right:
+      labels.append("zero_pad pads a typed sequence")
+    return {"nontrivial": bool(items) and bool(left or right), "labels": labels}
+  labels.append("entry:" + entry)
+  if entry == "fn_kw":
+    it = blocks(obj, size=size, padval=pad, **kw)
+  elif entry == "fn_positional":
+    it = blocks(obj, size, hop, pad)
+  elif entry == "fn_seq_kw":
+    it = blocks(seq=obj, size=size, padval=pad, **kw)
+  elif entry == "stream_method":
+    it = Stream(obj).blocks(size=size, padval=pad, **kw)
+  elif entry == "stream_fn":
+    it = blocks(Stream(obj), size, hop, pad)
+  elif entry == "iter":
+    it = blocks(iter(obj), size=size, padval=pad, **kw)
+  elif entry == "zero_pad_noop":
+    it = blocks(zero_pad(obj), size=size, padval=pad, **kw)
+  else:
+    raise AssertionError(entry)
+  # the buffer is changed in its unread part before the first block and after complete blocks, as the
+  # list of clause mutated is (same model): each block is the window of the buffer as it is then
+  pre = tuple(case.get("pre", ("none",)))
+  muts = [tuple(m) for m in case.get("muts", [])]
+  exp, ncomplete, effects = mutated_ref(items, size, hop, pad, pre, muts)
+  shown = repr(obj)
+  _apply(obj, 0, pre)
+  got = []
+  for k, blk in enumerate(it):
+    got.append(list(blk))
+    if len(got) > len(exp) + 3:
+      raise Violation("more blocks than expected: %r, expected %r" % (got[:8], exp))
+    if k < ncomplete and k < len(muts):
+      _apply(obj, k * hop + size, muts[k])
+  if len(got) != len(exp):
+    raise Violation("%s %s [%s]: block count %d != %d (size=%d hop=%d padval=%r pre=%r muts=%r) got=%r exp=%r"
+                    % (kind, shown, entry, len(got), len(exp), size, hop, pad, pre, muts, got, exp))
+  for k, (g, e) in enumerate(zip(got, exp)):
+    if not same(g, e):
+      raise Violation("%s %s [%s]: block %d is %r, expected %r (size=%d hop=%d padval=%r pre=%r muts=%r)"
+                      % (kind, shown, entry, k, g, e, size, hop, pad, pre, muts))
+  items = list(obj) if effects else items          # the sequence as it finally is
+  if effects:
+    labels.append("typed buffer changed while its blocks are read")
+    if any(e.endswith("between blocks") for e in effects):
+      labels.append("typed buffer changed between blocks")
+      if entry in ("fn_kw", "fn_positional", "fn_seq_kw"):
+        labels.append("typed buffer given as it is, changed between blocks")
+  labels.append("hop<size" if hop < size else ("hop=size" if hop == size else "hop>size"))
+  direct = entry in ("fn_kw", "fn_positional", "fn_seq_kw")
+  if direct:
+    labels.append("typed sequence given to the function as it is")
+  padded = bool(exp) and len(items) < (len(exp) - 1) * hop + size
+  if padded:
+    labels.append("padded tail")
+    if "text input, text pad not one character long" in labels:
+      labels.append("text padded with a text pad not one character long")
+      if direct:
+        labels.append("str given as it is, padded with a text pad not one character long")
+  return {"nontrivial": len(exp) >= 2 or padded, "labels": labels}
+
+
+# ---- sizes, hops and lengths beyond the small box ------------------------------------------------
+# "All size >= 1, all hop >= 1, all input lengths": the analysis settings blocks() is used with are
+# windows of 256 .. 2048 items moved by a half or a quarter, or short blocks taken far apart.  The
+# cases here are described by numbers (size, hop, block count, rest) and the items are built from
+# them, so that long inputs stay cheap to draw and to shrink.
+
+_BIG_ROUTES = ("iter", "list", "list", "stream", "stream_method", "gen", "tuple", "deque", "positional",
+               "stream_positional", "kw_default_pad", "getitem_seq", "getitem_nolen", "iter_only_obj",
+               "list_subclass", "sub_tagged_method", "thub_method")
+
+
+def strat_big(tier):
+  powers = [16, 32, 64, 128, 256, 512, 1024] + ([2048, 4096] if tier != "quick" else [])
+  size = st.one_of(st.integers(1, 9), st.integers(10, 100), st.sampled_from(powers))
+  def hop_for(size):
+    near = [max(size // 4, 1), max(size // 2, 1), max(size - 1, 1), size, size + 1, 2 * size, 3 * size + 1]
+    return st.one_of(st.sampled_from(near), st.none(), st.integers(1, max(2 * size, 2)),
+                     st.integers(size + 10, size + 300), st.integers(size + 10, size + 300))
+  def rest_of(sh):
+    size, hop = sh
+    step = size if hop is None else hop
+    most = max(1, min(30, 40000 // max(size, step)))
+    return st.fixed_dictionaries(dict(
+      sh=st.just(sh),
+      nblocks=st.integers(0, most),
+      rest=st.one_of(st.integers(0, size + step), st.sampled_from([0, 1, max(size - step, 0),
+                                                                  max(size - step, 0) + 1, size - 1, size])),
+      items=st.sampled_from(["range", "range", "cycle", "cycle", "sparse"]),
+      palette=st.lists(_items, min_size=1, max_size=7),
+      subs=st.lists(st.tuples(st.integers(0, 10 ** 6), _items), max_size=6),
+      pad=_pad,
+      route=st.sampled_from(_BIG_ROUTES),
+    ))
+  return size.flatmap(lambda sz: st.tuples(st.just(sz), hop_for(sz))).flatmap(rest_of)
+
+
+def run_big(case):
+  size, hop = case["sh"]
+  step = size if hop is None else hop
+  n = case["nblocks"] * step + case["rest"]
+  if case["items"] == "range":
+    xs = list(range(n))
+  elif case["items"] == "cycle":          # a heterogeneous pattern repeated (None, text, pad-like values)
+    pal = case["palette"]
+    xs = [pal[i % len(pal)] for i in range(n)]
+  else:                                   # distinct numbers with a few other items somewhere
+    xs = list(range(n))
+    for pos, item in case["subs"]:
+      if n:
+        xs[pos % n] = item
+  res = run_blocks(dict(xs=xs, sh=(size, hop), pad=case["pad"], route=case["route"]))
+  labels = [lb for lb in res["labels"] if not lb.startswith("route:")] + ["items:" + case["items"]]
+  if size >= 16:
+    labels.append("size >= 16")
+  if size >= 128:
+    labels.append("size >= 128")
+  if step - size >= 16:
+    labels.append("hop - size >= 16")
+    if any(x is None for x in xs):
+      labels.append("hop - size >= 16, None among the items")
+  if step >= 16 and step <= size:
+    labels.append("hop >= 16, overlapping or adjacent")
+  if n > 200:
+    labels.append("more than 200 items")
+  if n > 2000:
+    labels.append("more than 2000 items")
+  return {"nontrivial": res["nontrivial"], "labels": labels}
+
+
 def strat_pad(tier):
   return st.fixed_dictionaries(dict(
     xs=st.lists(_items, max_size=12),
@@ -832,6 +1106,24 @@ CLAUSES = [
              "block is asked for - a deque, dict / OrderedDict (and their views) or set that grows, shrinks "
              "or is reordered, a Stream limited / mapped / filtered / skipped / appended / copied / peeked "
              "in place: the blocks are those of the input as it is when they are produced"),
+  Clause("typed", strat_typed, run_typed, quick=5000, thorough=60000,
+         floors={"typed sequence given to the function as it is": .12, "text input, text pad": .1,
+                 "text padded with a text pad not one character long": .015,
+                 "str given as it is, padded with a text pad not one character long": .005,
+                 "the pad value is a sequence itself": .15, "zero_pad pads a typed sequence": .08,
+                 "typed buffer changed between blocks": .02,
+                 "typed buffer given as it is, changed between blocks": .008},
+         doc="blocks() / Stream.blocks() / zero_pad() over a str, bytes, bytearray, memoryview, range or "
+             "array.array given as it is (and through iter / Stream), with pad values of the same family: "
+             "text pads of length 0, 1 and more, bytes pads, numbers - one pad item per missing place; a "
+             "bytearray / array.array grows, shrinks or is rewritten in its unread part while its blocks are read"),
+  Clause("big", strat_big, run_big, quick=1500, thorough=20000,
+         floors={"size >= 16": .25, "size >= 128": .08, "hop - size >= 16": .1,
+                 "hop - size >= 16, None among the items": .02, "hop >= 16, overlapping or adjacent": .08,
+                 "more than 200 items": .15, "more than 2000 items": .03, "padded tail": .1},
+         doc="blocks()/Stream.blocks() vs blocks_ref for sizes up to 1024 (thorough 4096), hops of a quarter, "
+             "a half, size-1, size, size+1, a multiple of the size and hundreds of items beyond it, inputs of "
+             "thousands of items (numbers, a repeated heterogeneous pattern, numbers with a few other items)"),
   Enumerated("grid", grid, run_blocks, shards={"quick": 4, "thorough": 16},
              doc="every (length, size, hop) in a small box"),
 ]
